@@ -409,6 +409,23 @@ def sampled_ok(res: CheckResult) -> bool:
 SIEVE_EXPECT = {"dv": "{x} != 7", "dvn": "{x} is not None", "df": "{x} != []"}
 
 
+def _is_stack_merge(text: Optional[str]) -> bool:
+    """{k: v for el in extra_stack for k, v in el.items()}: item-wise copy, later targets override earlier ones"""
+    try:
+        e = ast.parse(text or "", mode="eval").body
+    except SyntaxError:
+        return False
+    if not isinstance(e, ast.DictComp) or len(e.generators) != 2 or any(g.ifs or g.is_async for g in e.generators):
+        return False
+    g1, g2 = e.generators
+    if not (isinstance(g1.target, ast.Name) and norm(g1.iter) == "extra_stack"):
+        return False
+    if norm(g2.iter) != f"{g1.target.id}.items()" or not isinstance(g2.target, ast.Tuple) or len(g2.target.elts) != 2:
+        return False
+    k, v = g2.target.elts
+    return isinstance(k, ast.Name) and isinstance(v, ast.Name) and norm(e.key) == k.id and norm(e.value) == v.id
+
+
 def c03_dumper_checks(repo: Repo, tier: str, res: CheckResult, seed: int, prop: str = "C03") -> int:
     n = 0
     disagreements = 0
@@ -518,10 +535,36 @@ def c03_dumper_checks(repo: Repo, tier: str, res: CheckResult, seed: int, prop: 
                 res.add(_gen_finding(prop, "TV.dumper-return", prog, 0, f"return {S.return_expr}",
                                      f"with extra_move the dumper must merge the extracted extras over the root node, returns "
                                      f"`{S.return_expr}`"))
-            want_src = "extractor(data)" if move == "extract" else "field:e:attr:e"
-            if S.extra_source != want_src:
+            form = move
+            if move in ("targets2", "targets2o"):
+                # the generator merges by display when every field of the shape is required, else through a stack
+                form = "targets2o" if any(f["kind"] in ("O", "OI") for f in rec["fields"]) else "targets2"
+            want_src = {"extract": "extractor(data)", "targets": "field:e:attr:e", "targets2": "{**f_e, **f_e2}",
+                        "targets2o": "{key: value for extra_element in extra_stack for (key, value) in extra_element.items()}"}[form]
+            if form == "targets2o" and _is_stack_merge(S.extra_source):
+                pass
+            elif S.extra_source != want_src:
                 res.add(_gen_finding(prop, "TV.extra-source", prog, 0, f"extra = {S.extra_source}",
                                      f"extras must come from `{want_src}`, found `{S.extra_source}`"))
+            if form == "targets2":
+                for t in ("e", "e2"):
+                    src = S.field_sources.get("f_" + t)
+                    if src is None or src[0] != t or src[1] != "attr:" + t or not src[3]:
+                        res.add(_gen_finding(prop, "TV.extra-source", prog, src[2] if src else 0, "extra target extraction",
+                                             f"extra target `{t}` must be read from `data.{t}` and dumped, found {src}"))
+            if form == "targets2o":
+                got = []
+                for fid, acc, dumped, line in S.extra_stack_sources:
+                    if acc.startswith("raw:"):
+                        raw = S.field_sources.get("r_" + acc[4:])
+                        acc = raw[1] if raw else acc
+                    got.append((fid, acc, dumped))
+                if got != [("e", "attr:e", True), ("e2", "attr:e2", True)]:
+                    res.add(_gen_finding(prop, "TV.extra-source", prog, 0, "extra target stack",
+                                         f"extra targets must be extracted, dumped and stacked in declaration order, found {got}"))
+                if S.containers_created.get("extra_stack") != "[]":
+                    res.add(_gen_finding(prop, "TV.extra-source", prog, 0, "extra_stack init",
+                                         f"extra_stack must start as a fresh empty list, found {S.containers_created.get('extra_stack')}"))
             nested = [p for p, nd in nodes.items() if p and nd["t"] == "dict" and all(isinstance(k, str) for k in p)]
             if nested and crown["t"] == "dict" and S.return_expr == "{**result, **extra}":
                 res.add(Finding(prop, "TV.extra-shallow-merge", "adaptix/_internal/morphing/model/dumper_gen.py",
@@ -814,6 +857,17 @@ def c20_checks(repo: Repo, tier: str, res: CheckResult, seed: int) -> None:
             for txt, line in S.stores_into_data:
                 res.add(_gen_finding("C20", "PURE.generated-argument-mutation", prog, line, txt,
                                      f"`{txt}` modifies the {kind}'s argument"))
+            from .props import c20 as _c20
+            sub = CheckResult("C20")
+            _c20.PASSTHROUGH_PREFIXES = ("dumper_", "loader_")
+            try:
+                _c20.mutation_findings(None, prog.fn, prog.ident, kind, sub, seeds={"data"})
+            finally:
+                _c20.PASSTHROUGH_PREFIXES = ()
+            for f in sub.findings:
+                if not any(f.line == line for _t, line in S.stores_into_data):
+                    res.add(_gen_finding("C20", "PURE.generated-argument-mutation", prog, f.line, f.construct,
+                                         f.message.split(":")[0]))
             ns = prog.rec["namespace"]
             shared = {k for k, v in ns.items() if v["type"] in ("builtins.set", "builtins.dict", "builtins.list")}
             for c in ast.walk(prog.fn):
